@@ -138,25 +138,26 @@ def okNotify (c : CaseObs) (nts : Str) (kind : Nat) (m : ObsMsg) : Bool :=
 def keyOf (m : ObsMsg) : Str × Str := (m.st, m.usn)
 
 /-- round-robin: the announcements repeat with the period of the table, the first round is (a
-    prefix of) the table in some order, equally spaced in time, none after the stop,
-    and it does not cease while the announcer is observed -/
+    prefix of) the table in some order, none after the stop, and they do not cease while the
+    announcer is observed -/
 def okAlives (c : CaseObs) : Bool :=
   let e := (expAll c.tree).map fun e => (e.st, e.usn)
   let a := c.alives.map keyOf
   subMulti (a.take e.length) e
   && (List.range (a.length - e.length)).all (fun i => a[i]? == a[i + e.length]?)
   && c.alives.all (okNotify c ntsAlive 1)
-  && (let ts := c.alives.map (·.time)
-      (List.range (ts.length - 1)).all fun i =>
-        ts.getD i 0 < ts.getD (i + 1) 0 && ts.getD (i + 1) 0 - ts.getD i 0 == ts.getD 1 0 - ts.getD 0 0)
   && (match c.stopTime with
       | some ts => c.alives.all fun m => m.time ≤ ts
       | none => true)
-  -- "periodically": the cycle goes on for as long as the announcer is observed
+  -- "periodically": the announcements do not cease while the announcer is observed — the silence
+  -- at the end of the observation is not longer than some gap between two announcements seen before.
+  -- (No particular spacing is demanded: the text fixes neither the interval nor a send per tick.)
   && (match c.annUpto with
       | some u =>
         let ts := c.alives.map (·.time)
-        ts.length < 2 || decide (u < ts.getD (ts.length - 1) 0 + (ts.getD 1 0 - ts.getD 0 0))
+        -- (only a burst at one instant seen so far: no gap is known yet, nothing can be said)
+        ((List.range (ts.length - 1)).all fun i => ts.getD (i + 1) 0 - ts.getD i 0 ≤ 0)
+        || (List.range (ts.length - 1)).any fun i => u - ts.getD (ts.length - 1) 0 ≤ ts.getD (i + 1) 0 - ts.getD i 0
       | none => true)
 
 def okByebyes (c : CaseObs) : Bool :=
